@@ -554,10 +554,15 @@ def oracle_C05(rs, n, ctx):
                 R.violate(f"C05:{which}-gradient", f"gradient directions change at {(dg > 1e-6).mean():.0%} of the nodes", rep)
         if which == "length":
             G, axes = node_coords(a.shape, d, o_r)
-            pts = np.array([[rs.uniform(ax[0], ax[-1]) for ax in axes] for _ in range(6)])
+            pts = np.array([[rs.uniform(ax[0], ax[-1]) for ax in axes] for _ in range(4)]
+                           + [gens.query_point(rs, axes, cls=cl)[0] for cl in ("face", "edgecorner", "node")])
             _, axes2 = node_coords(b.shape, d2, o2)
             pts2 = np.array([[min(max(p[a_] * c, axes2[a_][0]), axes2[a_][-1]) for a_ in range(nd)] for p in pts])
-            ta, tb = a(pts), b(pts2)
+            try:
+                ta, tb = a(pts), b(pts2)
+            except Exception as ex:  # noqa: BLE001
+                R.violate(f"C05:interp-raises:{type(ex).__name__}", f"point evaluation raised {type(ex).__name__}: {ex}", dict(rep, points_hex=hexl(pts)))
+                continue
             ok = ~np.isnan(ta) & ~np.isnan(tb)
             if ok.any() and np.abs(ta * c - tb)[ok].max() > 1e-9 * max(np.abs(tb[ok]).max(), 1e-300) + 1e-12 * scale:
                 R.violate("C05:length-interp", f"interpolated times do not scale with length ({np.abs(ta * c - tb)[ok].max():.3e})", rep)
